@@ -1238,6 +1238,11 @@ impl CodegenContext {
         f: F,
     ) -> CoreResult<()> {
         let prev_segment = self.current_segment.clone();
+        if prev_segment == Some(Identifier::new("$dummy")) {
+            // Already emitting to the dummy segment (e.g. an untaken branch nested inside another one).
+            // Removing the dummy segment when we're done would pull it out from under our caller.
+            return f(self);
+        }
         self.segments
             .insert("$dummy".into(), Segment::new(SegmentOptions::default()));
         self.current_segment = Some(Identifier::new("$dummy"));
